@@ -43,28 +43,28 @@ const (
 func init() {
 	property("C01", "Replies arrive in request order, exactly one per request",
 		"that each merged or relayed reply body is itself exactly one RESP reply (value-level, see C02/C07); byte-level interleaving with partial writes inside the buffers (C19); kernel behaviour",
-		"C01.1", "C01.2", "C01.3", "C01.4", "C01.5", "C01.6")
+		"C01.1", "C01.2", "C01.3", "C01.4", "C01.5", "C01.6", "C03.6")
 	property("C02", "Single-key requests and their replies pass through byte-exact",
 		"that readReply's recursive framing computes the right frame length for every RESP2 value; parseLen/ReadN arithmetic for every length; behaviour at multi-megabyte sizes; cursor arithmetic inside the ring/list buffers (C19)",
 		"C02.1", "C02.2", "C02.3", "C02.4", "C02.5", "C02.6", "C01.5")
 	property("C03", "A client never receives a reply produced for a different request",
 		"that a backend answers in order on one connection (protocol assumption); the actual reuse order of sync.Pool objects",
-		"C03.1", "C03.2", "C03.3", "C03.4", "C03.5")
+		"C03.1", "C03.2", "C03.3", "C03.4", "C03.5", "C03.6")
 	property("C04", "Requests are routed to the replica set owning the key's slot, by role",
 		"the contents of the slot table versus the real cluster (C14); what a node does with READONLY/AUTH",
-		"C04.1", "C04.2", "C04.3", "C04.4", "C04.5", "C04.6")
+		"C04.1", "C04.2", "C04.3", "C04.4", "C04.5", "C04.6", "C14.6", "C03.6")
 	property("C05", "Key-to-slot mapping equals the Redis Cluster key-slot function",
 		"that the loop body of hash computes the CRC recurrence for every input (arithmetic shape; the table, the reduction, the tag extraction and the call sites are decided)",
 		"C05.1", "C05.2", "C05.3", "C05.4")
 	property("C06", "Multi-key requests are split into one exact per-slot fragment each",
 		"that the concatenation of correctly shaped, length-prefixed pieces is accepted by Redis for every byte content (follows from RESP framing; not re-proved)",
-		"C06.1", "C06.2", "C06.3", "C06.4")
+		"C06.1", "C06.2", "C06.3", "C06.4", "C03.6")
 	property("C07", "Split multi-key replies are reassembled correctly in any arrival order",
 		"parseMGet's element slicing for every value (byte arithmetic); integer parsing of DEL counts; behaviour if a node returns the wrong number of elements",
 		"C07.1", "C07.2", "C07.3", "C07.4")
 	property("C08", "Request framing is independent of TCP segmentation",
 		"conn.Peek/Discard/Next arithmetic across ring leftover and fresh bytes and the ring buffer itself (C19) - value-level",
-		"C08.1", "C08.2", "C08.3", "C02.4")
+		"C08.1", "C08.2", "C08.3", "C08.4", "C02.4")
 	property("C09", "Completed replies are delivered promptly, not withheld by later requests",
 		"any time bound; scheduling of the event loop",
 		"C09.1", "C09.2")
